@@ -50,6 +50,8 @@ type Contract struct {
 	Loops      map[int]*LoopSpec
 	Ghost      []Clause // ghost updates performed by a trusted function: "ghost x = e"
 	Options    map[string]string
+	Assumed    []Clause            // postconditions assumed at call sites but not proved (definitional axioms): "ensures-assumed"
+	Model      []Clause            // extra entry-state expressions reported in counterexample models: "model <expr>"
 	At         map[string][]Clause // assertions checked right before a call site: "at <site> assert <expr>"
 	File       string
 	Used       bool
@@ -91,6 +93,7 @@ type ContractDB struct {
 	Globals map[string]*GlobalDecl
 	Ghosts  map[string]AnyVar // ghost globals: name -> type
 	UFuncs  map[string]*UFunc
+	Axioms  map[string][]Clause // package path -> definitional axioms of spec-level functions (assumed)
 	GhostTypes map[string]string // name -> struct type source
 	GhostTypeOrder []string
 	Errors  []string
@@ -98,7 +101,7 @@ type ContractDB struct {
 
 func newDB() *ContractDB {
 	return &ContractDB{Funcs: map[string]*Contract{}, Specs: map[string]*Spec{}, Lemmas: map[string]*Lemma{},
-		Globals: map[string]*GlobalDecl{}, Ghosts: map[string]AnyVar{}, UFuncs: map[string]*UFunc{}, GhostTypes: map[string]string{}}
+		Globals: map[string]*GlobalDecl{}, Ghosts: map[string]AnyVar{}, UFuncs: map[string]*UFunc{}, GhostTypes: map[string]string{}, Axioms: map[string][]Clause{}}
 }
 
 var reDirective = regexp.MustCompile(`^//\s?@(.*)$`)
@@ -106,7 +109,7 @@ var reLabel = regexp.MustCompile(`^([A-Za-z0-9_\-#./]+):\s+(.*)$`)
 
 var keywords = map[string]bool{"func": true, "any": true, "requires": true, "ensures": true, "modifies": true,
 	"loop": true, "trusted": true, "spec": true, "lemma": true, "assume": true, "show": true, "package": true,
-	"global": true, "ghost": true, "option": true, "pure": true, "ghostvar": true, "ufunc": true, "ghosttype": true, "at": true}
+	"global": true, "ghost": true, "option": true, "pure": true, "ghostvar": true, "ufunc": true, "ghosttype": true, "at": true, "model": true, "ensures-assumed": true, "axiom": true}
 
 func (db *ContractDB) errf(format string, a ...interface{}) {
 	db.Errors = append(db.Errors, fmt.Sprintf(format, a...))
@@ -212,6 +215,12 @@ func (db *ContractDB) loadFile(path, defaultPkg string) {
 				db.errf("%s: duplicate contract for %s", where, key)
 			}
 			db.Funcs[key] = cur
+		case "model":
+			if cur != nil {
+				for _, part := range splitTop(d.rest) {
+					cur.Model = append(cur.Model, db.clause(part, where))
+				}
+			}
 		case "at":
 			if cur != nil {
 				k := strings.Index(d.rest, " assert ")
@@ -259,6 +268,10 @@ func (db *ContractDB) loadFile(path, defaultPkg string) {
 			if cur != nil {
 				cur.Ensures = append(cur.Ensures, db.clause(d.rest, where))
 			}
+		case "ensures-assumed":
+			if cur != nil {
+				cur.Assumed = append(cur.Assumed, db.clause(d.rest, where))
+			}
 		case "ghost":
 			if cur != nil {
 				// ghost <lhs> = <expr> ; stored as label=lhs, expr
@@ -289,6 +302,9 @@ func (db *ContractDB) loadFile(path, defaultPkg string) {
 				}
 				db.GhostTypes[f[0]] = strings.TrimSpace(f[1])
 			}
+		case "axiom":
+			db.Axioms[pkg] = append(db.Axioms[pkg], db.clause(d.rest, where))
+			cur, curLemma = nil, nil
 		case "ghostvar":
 			f := strings.SplitN(d.rest, " ", 2)
 			if len(f) == 2 {
